@@ -304,7 +304,44 @@ class Check(core.CheckBase):
                     'aliases-buffer|%s' % type(obj).__name__,
                     'overwriting/clearing the buffer after %s.%s changed the parsed object at %s' % (
                         name.split(':')[1], entry, structural.diff_path(before, after)), case))
+        found.extend(self.judge_independent_parses(cls, name, data, case))
         self.observe(('aliasing', name, data), True, {'kind': 'aliasing', 'cls': name, 'hex': data[:32].hex()})
+        return found
+
+    def judge_independent_parses(self, cls, name, data, case):
+        """Two parses of the same bytes give two objects that share no mutable state: whatever the owner of the first does to
+        it in place (every mutable container reachable from it is edited), the second one and a third, later one stay as parsed."""
+        from cryptoparser.common.base import ArrayBase  # pylint: disable=import-outside-toplevel
+        found = []
+        try:
+            first, _ = cls.parse_immutable(bytes(data))
+            second, _ = cls.parse_immutable(bytes(data))
+        except Exception:  # pylint: disable=broad-except
+            return found
+        self.stats['independent_parse_pairs'] += 1
+        expected = structural.deep_state(second, strict_types=True)
+        shared = set(structural.mutable_ids(first)) & set(structural.mutable_ids(second))
+        if shared:
+            self.stats['parse_pairs_sharing_objects'] += 1
+        edited = 0
+        for target in list(structural.mutable_ids(first).values()):
+            if self._edit_in_place(target):
+                edited += 1
+        self.stats['in_place_edits_of_parsed_objects'] += edited
+        try:
+            third, _ = cls.parse_immutable(bytes(data))
+        except Exception as e:  # pylint: disable=broad-except
+            return [self.violation('parse-depends-on-history|%s' % type(first).__name__,
+                                   'after an earlier parsed %s was edited in place, parsing the same bytes again raises %r' % (
+                                       name.split(':')[1], e), case)]
+        for label, other in (('an object parsed earlier', second), ('a later parse of the same bytes', third)):
+            state = structural.deep_state(other, strict_types=True)
+            if state != expected:
+                found.append(self.violation(
+                    'shared-between-parses|%s' % (structural.diff_locus(expected, state)[0] or type(first).__name__).split('.')[-1],
+                    'editing one parsed %s in place changed %s at %s' % (
+                        name.split(':')[1], label, structural.diff_path(expected, state)), case))
+                break
         return found
 
     # ------------------------------------------------------------------ (c) shared defaults
@@ -416,7 +453,10 @@ class Check(core.CheckBase):
                         return '%s.%s' % (field.name, described)
                 for field in attr.fields(type(value)):
                     inner = getattr(value, field.name, None)
-                    if isinstance(inner, int) and not isinstance(inner, bool):
+                    if isinstance(inner, bool):
+                        object.__setattr__(value, field.name, not inner)
+                        return 'attribute assignment %s = not %s' % (field.name, field.name)
+                    if isinstance(inner, int):
                         object.__setattr__(value, field.name, inner + 1)
                         return 'attribute assignment %s += 1' % field.name
         except Exception:  # pylint: disable=broad-except
